@@ -12,6 +12,7 @@ Tie to the source:
 import itertools
 import json
 import string
+import zlib
 
 from harness import fw
 from harness.fw import Err, catch, cstr, clist, cpair
@@ -993,17 +994,19 @@ class StrSub(str):
     pass
 
 
-def shaped_calls(family, h, offers):
-    """(shape name, answer) for every accepted way of passing the same offers."""
+def shaped_calls(family, h, offers, every=True, pick=0):
+    """(shape name, answer) for the accepted ways of passing the same offers: all of them (`every`), or the plain list
+    and one other chosen by `pick` (each way of obtaining the object sees every shape over the run)."""
     objs = [mk_offer(o) if family == "accept" else o for o in offers]
-    out = [("list-positional", catch(lambda: canon_result(h.acceptable_offers(list(objs))))),
-           ("list-keyword", catch(lambda: canon_result(h.acceptable_offers(offers=list(objs))))),
-           ("tuple", catch(lambda: canon_result(h.acceptable_offers(tuple(objs))))),
-           ("str-subclass", catch(lambda: canon_result(
-               h.acceptable_offers([StrSub(o) if type(o) is str else o for o in objs])))),
-           ("equal-not-identical", catch(lambda: canon_result(
-               h.acceptable_offers([("".join(list(o)) if type(o) is str else type(o)(*o)) for o in objs]))))]
-    return out
+    shapes = [("list-positional", lambda: h.acceptable_offers(list(objs))),
+              ("list-keyword", lambda: h.acceptable_offers(offers=list(objs))),
+              ("tuple", lambda: h.acceptable_offers(tuple(objs))),
+              ("str-subclass", lambda: h.acceptable_offers([StrSub(o) if type(o) is str else o for o in objs])),
+              ("equal-not-identical", lambda: h.acceptable_offers(
+                  [("".join(list(o)) if type(o) is str else type(o)(*o)) for o in objs]))]
+    if not every:
+        shapes = [shapes[0], shapes[1 + pick % 4]]
+    return [(name, catch(lambda f=f: canon_result(f()))) for name, f in shapes]
 
 
 def identity_problem(family, h, offers):
@@ -1047,7 +1050,8 @@ def oracle_config(family, header, struct, offers):
         if type(h).__name__ not in (type(base).__name__, "Sub"):
             return (family + ":config:" + how, "%s header %r obtained via %s is a %s, create_* gives a %s"
                     % (family, header, how, type(h).__name__, type(base).__name__))
-        for shape, got in shaped_calls(family, h, offers):
+        calls = shaped_calls(family, h, offers, every=(how == "create"), pick=zlib.crc32(("%r/%s" % (header, how)).encode()))
+        for shape, got in calls:
             if got != want:
                 return (family + ":config:%s:%s" % (how, shape),
                         "%s header %r obtained via %s, offers %r passed as %s: acceptable_offers gave %r, expected %r"
@@ -1493,7 +1497,7 @@ def run(ctx):
     ctx.oracle_count("regression", len(REGRESSION), len(REGRESSION))
     for family in FAMILIES:
         cnt = 0
-        for i in range(ctx.scale(350, 8000)):
+        for i in range(ctx.scale(250, 8000)):
             if family == "accept":
                 header, struct, offers = gen_accept_case(r4)
             else:
